@@ -1,9 +1,13 @@
 /-
   JSON driver for the VCF / BAF model (property C18).
   ops: vcf_read, vcf_hets, vcf_baf, vcf_mirror, vcf_pipeline, vcf_boost, vcf_rescale
+  A VCF input is {samples, tags, records} plus, optionally (Model/VcfPairs.lean), "gatk": [{"id": str|null,
+  "opts": null | [[key, value|null], ...]}, ...] (the ##GATKCommandLine records) and "mutect2": bool (a
+  ##GATKCommandLine.MuTect2 record exists); left out = none of them, and the ops are then what they were.
 -/
 import CnvVerif.Driver.Json
 import CnvVerif.Model.Vcf
+import CnvVerif.Model.VcfPairs
 open Lean
 namespace CnvVerif.Drv
 open CnvVerif.Vcf
@@ -89,6 +93,7 @@ def vErrJ : VErr → Json
   | .keyError => strJ "KeyError"
   | .assertionError => strJ "AssertionError"
   | .valueError => strJ "ValueError"
+  | .typeError => strJ "TypeError"
 
 def vResJ : Except VErr VTable → Json
   | .ok t => vTableJ t
@@ -110,11 +115,32 @@ structure VcfIn where
   samples : List String
   tags : List PedTag
   recs : List Rec
+  gatk : List GatkTag := []
+  mutect2 : Bool := false
+
+def VcfIn.hdr (v : VcfIn) : Hdr := { tags := v.tags, gatk := v.gatk, mutect2 := v.mutect2 }
+
+def vGetGatk (j : Json) : R GatkTag := do
+  let opts ← (match optFld j "opts" with
+    | none => pure none
+    | some .null => pure none
+    | some o => do
+      pure (some (← getList (fun kv => do
+        let a ← getArr kv
+        if a.size < 2 then throw "gatk option token: [key, value|null]"
+        pure (← getStr a[0]!, ← getOptStr a[1]!)) o)))
+  pure { id := ← getOptStr (← fld j "id"), opts := opts }
 
 def vGetVcf (inp : Json) : R VcfIn := do
+  let gatk ← (match optFld inp "gatk" with
+    | none => pure []
+    | some g => getList vGetGatk g)
+  let m2 ← (match optFld inp "mutect2" with
+    | none => pure false
+    | some b => getBool b)
   pure { samples := ← getList getStr (← fld inp "samples"),
          tags := ← getList vGetTag (← fld inp "tags"),
-         recs := ← getList vGetRec (← fld inp "records") }
+         recs := ← getList vGetRec (← fld inp "records"), gatk := gatk, mutect2 := m2 }
 
 def vAbs (q : Rat) : Rat := if q < 0 then -q else q
 def vClose (a b : Rat) : Bool := vAbs (a - b) ≤ (1 / 1000000000 : Rat) * max 1 (vAbs b)
@@ -153,22 +179,30 @@ def vResolved (samples : List String) (sid nid : Sel) : Option (Option String ×
        (match n with | some x => samples.contains x | none => true) then some (s, n) else none
   | _, _ => none
 
-/-- the declared pairs, `none` when a PEDIGREE tag is unreadable (Derived without Original) -/
-def vPeds (tags : List PedTag) : Option (List (String × String)) :=
-  match parsePedigrees tags with
+/-- the declared pairs (PEDIGREE, else MuTect, else MuTect2), `none` when the declaration is unreadable (Derived
+    without Original; a MuTect record without CommandLineOptions / normal_sample_name) -/
+def vPeds (v : VcfIn) : Option (List DPair) :=
+  match headerPairs v.samples v.hdr with
   | .ok p => some p
   | .error _ => none
 
 /-- every declared name is exactly one sample column -/
-def vPedsValid (samples : List String) (peds : List (String × String)) : Bool :=
-  peds.all (fun x => samples.count x.1 == 1 && samples.count x.2 == 1)
+def vPedsValid (samples : List String) (peds : List DPair) : Bool :=
+  peds.all (fun x => (match x.1 with | some t => samples.count t == 1 | none => true) && samples.count x.2 == 1)
+
+/-- the declaration's first pair names no tumour and no tumour id is given: the reader has no sample to read;
+    it fails at the first record it looks at -- a file without one comes back as an empty table -/
+def vHeadless (v : VcfIn) (sid nid : Sel) : Bool :=
+  match vResolved v.samples sid nid, vPeds v with
+  | some (none, _), some ((none, _) :: _) => true
+  | _, _ => false
 
 /-- what the documented rules choose: `none` = the reader has to refuse; `some (pair, mayRefuse)` =
     this pair, where a header declaring unknown samples may also be refused outright -/
 def vChoice (v : VcfIn) (sid nid : Sel) : Option ((String × Option String) × Bool) :=
-  match vResolved v.samples sid nid, vPeds v.tags with
+  match vResolved v.samples sid nid, vPeds v with
   | some (s, n), some peds =>
-    match specPair v.samples peds s n with
+    match specPairH v.samples peds s n with
     | some pair =>
       if v.samples.count pair.1 == 1 && (match pair.2 with | some x => v.samples.count x == 1 | none => true)
       then some (pair, !vPedsValid v.samples peds) else none
@@ -229,7 +263,12 @@ def vReadSpec (v : VcfIn) (sid nid : Sel) (minDepth : Option Int) (skipReject sk
     (impl : Json) : R (List String) := do
   let refuse : Bool := (vImplErr impl).isSome
   match vChoice v sid nid with
-  | none => pure (if refuse then [] else ["sample_choice_rules"])
+  | none =>
+    if refuse then pure [] else
+    if vHeadless v sid nid then do
+      let t ← vGetTable impl
+      pure (if t.rows.isEmpty then [] else ["sample_choice_rules"])
+    else pure ["sample_choice_rules"]
   | some (pair, mayRefuse) =>
       if refuse then pure (if mayRefuse then [] else ["sample_choice_rules"]) else
       let t ← vGetTable impl
@@ -251,7 +290,12 @@ def vReadSpec (v : VcfIn) (sid nid : Sel) (minDepth : Option Int) (skipReject sk
 def vHetSpec (v : VcfIn) (o : HetOpts) (impl : Json) : R (List String) := do
   let refuse : Bool := (vImplErr impl).isSome
   match vChoice v o.sid o.nid with
-  | none => pure (if refuse then [] else ["sample_choice_rules"])
+  | none =>
+    if refuse then pure [] else
+    if vHeadless v o.sid o.nid then do
+      let t ← vGetTable impl
+      pure (if t.rows.isEmpty then [] else ["sample_choice_rules"])
+    else pure ["sample_choice_rules"]
   | some (pair, mayRefuse) =>
       let badFreq := match o.zygFreq with
         | some (het, hom) => !(0 ≤ het ∧ het ≤ hom ∧ hom ≤ 1)
@@ -371,7 +415,7 @@ def handleVcf (op : String) (inp : Json) (impl : Option Json) : R (Option Json) 
     let minDepth ← getOptInt (← fld inp "min_depth")
     let skipReject ← getBool (← fld inp "skip_reject")
     let skipSomatic ← getBool (← fld inp "skip_somatic")
-    let out := readVcf v.samples v.tags v.recs { sid, nid, minDepth, skipReject, skipSomatic }
+    let out := readVcfH v.samples v.hdr v.recs { sid, nid, minDepth, skipReject, skipSomatic }
     let spec ← (match impl with
       | none => pure Json.null
       | some ij => do pure (vClausesJ (← vReadSpec v sid nid minDepth skipReject skipSomatic ij)))
@@ -379,8 +423,8 @@ def handleVcf (op : String) (inp : Json) (impl : Option Json) : R (Option Json) 
   | "vcf_hets" =>
     let v ← vGetVcf inp
     let o ← vGetHetOpts inp
-    let out := loadHetSnps v.samples v.tags v.recs o
-    let base := readVcf v.samples v.tags v.recs
+    let out := loadHetSnpsH v.samples v.hdr v.recs o
+    let base := readVcfH v.samples v.hdr v.recs
       { sid := o.sid, nid := o.nid, minDepth := o.minDepth, skipReject := false, skipSomatic := true }
     let slack : Rat := match base with
       | .ok t => vZygSlack (match o.zygFreq with
@@ -438,11 +482,11 @@ def handleVcf (op : String) (inp : Json) (impl : Option Json) : R (Option Json) 
     let resc (l : List (Option Rat)) : List (Option Rat) := match purity with
       | some p => l.map (fun x => x.map (rescaleBaf p))
       | none => l
-    match loadHetSnps v.samples v.tags v.recs o with
+    match loadHetSnpsH v.samples v.hdr v.recs o with
     | .error e => pure (some (obj [("out", obj [("error", vErrJ e)]), ("spec", Json.null), ("slack", ratJ 1)]))
     | .ok tb =>
       let out := resc (bafByRanges tb segs none false)
-      let base := readVcf v.samples v.tags v.recs
+      let base := readVcfH v.samples v.hdr v.recs
         { sid := o.sid, nid := o.nid, minDepth := o.minDepth, skipReject := false, skipSomatic := true }
       let zslack : Rat := match base with
         | .ok t => vZygSlack (match o.zygFreq with
